@@ -68,6 +68,31 @@ MUTANTS = [
      "            kwargs.setdefault(\"invalid_netcdf\", True)",
      "            kwargs.setdefault(\"invalid_netcdf\", True)\n"
      "            ds = ds.assign_coords({k: c.real for k, c in ds.coords.items() if np.iscomplexobj(c.values)})"),
+    # ---- changes seeded by independent reviewers (round 2) --------------------------------
+    ("attrs-rewritten-by-equality", "C14", MG,
+     "            if val is True:\n                ds.attrs[attr] = \"True\"\n            if val is False:\n                ds.attrs[attr] = \"False\"",
+     "            if isinstance(val, (bool, int, float, np.integer)) and val == 1:\n                ds.attrs[attr] = \"True\"\n"
+     "            if isinstance(val, (bool, int, float, np.integer)) and val == 0:\n                ds.attrs[attr] = \"False\""),
+    ("create-new-tested-before-extension", "C14", MG,
+     "    file_name = auto_add_extension(file_name, engine)\n\n    if not os.path.exists(file_name) and create_new:\n        return xr.Dataset()\n",
+     "    if not os.path.exists(file_name) and create_new:\n        return xr.Dataset()\n\n    file_name = auto_add_extension(file_name, engine)\n"),
+    ("find-missing-vectorised-untransposed", "C13", CR,
+     "    all_cases = itertools.product(*(ds[arg].data for arg in fn_args))\n\n"
+     "    # Only return those corresponding to all missing data\n"
+     "    def gen_missing_list():\n"
+     "        for case in progbar(all_cases, disable=not show_progbar):\n"
+     "            setting = dict(zip(fn_args, case))\n"
+     "            if is_case_missing(ds, setting, method=method):\n"
+     "                yield case\n",
+     "    import numpy as np\n"
+     "    all_values = tuple(ds[arg].data for arg in fn_args)\n"
+     "    null = ds.isnull() if method == 'isnull' else ~np.isfinite(ds)\n"
+     "    null = null.to_array()\n"
+     "    all_missing = null.all(dim=[d for d in null.dims if d not in fn_args])\n"
+     "    where_missing = np.argwhere(all_missing.values)\n\n"
+     "    def gen_missing_list():\n"
+     "        for loc in progbar(where_missing, disable=not show_progbar):\n"
+     "            yield tuple(values[i] for values, i in zip(all_values, loc))\n"),
 ]
 
 # Equivalent in this environment (NOT caught, and cannot be: behaviour is unchanged):
